@@ -24,7 +24,9 @@ META = {
             "open_session, auth_password, accept(None), accept(5), global_request(wait), renegotiate_keys, start_client) x "
             "loss in {peer close, stream EOF, EOF mid-packet, local close, packet with a bad MAC} x timing {blocked before, "
             "racing within delay bound 1/2, issued after} x channel timeout {None, 3.0}; plus a transport over a "
-            "ProxyCommand whose process exits. The call must return or raise within 3 virtual seconds of the loss (or "
+            "ProxyCommand whose process exits; plus every API x local close while the victim's transport thread is "
+            "busy inside an application callback (x11 handler on the client, check_channel_exec_request on the "
+            "server; timing before [quick] / racing / after). The call must return or raise within 3 virtual seconds of the loss (or "
             "by its own timeout) and the transport must become inactive.",
     "note": "virtual time: 'promptly' = 3 virtual seconds; ProxyCommand runs against a stub process over real pipes "
             "(no child process); delay bounding for the racing timing",
@@ -45,6 +47,7 @@ def victim_of(api):
 def make_body(scn):
     api, loss, timing, ctimeout = scn[:4]
     ncall = scn[4] if len(scn) > 4 else 1
+    busy = scn[5] if len(scn) > 5 else False
 
     def body(s):
         handshake_only = api in ("auth_password", "start_client")
@@ -147,6 +150,34 @@ def make_body(scn):
             elif loss == "bad_mac":
                 vsock.rbuf += bad_pkt      # one atomic step: the corrupted packet arrives
             out["t_loss"] = S.now()
+
+        if busy:
+            # the victim's transport thread is inside an application callback (for up to 30 virtual seconds)
+            # when the call is made and when the connection is closed locally: close() must release the
+            # callers by itself
+            from paramiko.common import MSG_CHANNEL_OPEN, MSG_CHANNEL_REQUEST
+            gate = vthreading.Event()
+            entered = []
+
+            def slow(*a, **k):
+                entered.append(S.now())
+                gate.wait(30.0)
+                return True
+            was = in_pipe.gated
+            in_pipe.gated = False
+            if victim_of(api) == "c":
+                p.tc._x11_handler = slow
+                p.ts._send_message(F.msg(MSG_CHANNEL_OPEN, ("str", b"x11"), ("int", 42), ("int", 65536),
+                                         ("int", 32768), ("str", b"127.0.0.1"), ("int", 6000)))
+            else:
+                c2, sv2 = p.session()
+                p.server.check_channel_exec_request = slow
+                p.tc._send_message(F.msg(MSG_CHANNEL_REQUEST, ("int", c2.remote_chanid), ("str", b"exec"),
+                                         ("bool", True), ("str", b"true")))
+            s.quiesce()
+            in_pipe.gated = was
+            assert entered, "harness: the victim's transport thread did not enter the callback"
+            out["busy_since"] = entered[0]
 
         th = vthreading.Thread(target=call)
         # further concurrent callers of the same API (every one of them has to be released)
@@ -257,6 +288,11 @@ def scenarios(tier):
                        "accept_none", "open_session"):
                 for timing in (("before",) if tier == "quick" else ("before", "racing")):
                     out.append((api, loss, timing, None, 2))
+        # the victim's transport thread is busy in an application callback: only a local close() can end the
+        # connection meanwhile (every other loss is noticed by that thread)
+        if api not in ("start_client", "auth_password"):
+            for timing in (("before",) if tier == "quick" else ("before", "racing", "after")):
+                out.append((api, "local_close", timing, None, 1, True))
     return out
 
 
@@ -275,8 +311,9 @@ def run_items(items, acc):
                 if o.get("was_blocked") or scn[2] != "before":
                     acc.nt((scn, o.get("kind"), o.get("exc")))
             if v is not None:
-                acc.violation("%s:%s:%s:%s%s" % (v[0], scn[0], scn[1], "after-loss" if scn[2] == "after" else "blocked-or-racing",
-                                                 ":two-callers" if len(scn) > 4 and scn[4] > 1 else ""),
+                acc.violation("%s:%s:%s:%s%s%s" % (v[0], scn[0], scn[1], "after-loss" if scn[2] == "after" else "blocked-or-racing",
+                                                   ":two-callers" if len(scn) > 4 and scn[4] > 1 else "",
+                                                   ":transport-thread-busy-in-callback" if len(scn) > 5 and scn[5] else ""),
                               {"scn": scn, "why": v[1], "choices": ex.choices,
                                "observed": ex.value if ex.outcome == "ok" else None},
                               {"scn": scn, "choices": ex.choices, "bound": bound})
@@ -287,7 +324,7 @@ def run_items(items, acc):
         if res.capped:
             acc.note("cap 1500 hit %r" % (scn,))
         if len(acc.samples) < 3 and seen:
-            acc.sample({"scenario": dict(zip(("api", "loss", "timing", "channel_timeout", "callers"), scn)),
+            acc.sample({"scenario": dict(zip(("api", "loss", "timing", "channel_timeout", "callers", "transport_thread_busy"), scn)),
                         "schedules": res.executions, "outcomes(kind,exception,was_blocked)": sorted(map(list, seen), key=repr)})
 
 
